@@ -707,6 +707,45 @@ def gen_carry(rng, n):
     return cases
 
 
+def gen_pipeline4(rng, n):
+    """the relay / proxy pipelines of plugins/dhcp4/{relay,proxy}: several calls on one buffer"""
+    cases = []
+    for k in range(n):
+        w = k % 3
+        if w == 0:
+            pol = rng.choice(["replace", "replace", "keep", "drop"])
+            pkt = short_pkt(rng) if rng.random() < 0.03 else mk_pkt(rng, gen_items(rng, big=rng.random() < 0.1))
+            d = opt82(rng)
+            cases.append("relay4 %s %s %s %s" % (ip4tok(rng, 0.12), pol, hx(bytes([82, len(d)]) + d), hx(pkt)))
+        else:
+            # a server reply: message type, server-id (mostly), lease, T1/T2 (sometimes), echoed option 82 (mostly), others
+            items = [(53, bytes([rng.choice([2, 5, 6])]))]
+            if rng.random() < 0.85:
+                items.append((54, ip4(rng)))
+            if rng.random() < 0.9:
+                items.append((51, rb(rng, 4)))
+            for c in (58, 59):
+                if rng.random() < 0.5:
+                    items.append((c, rb(rng, 4)))
+            for _ in range(rng.choice([0, 1, 1, 1, 2])):
+                items.append((82, opt82(rng)))
+            items += [(c, rb(rng, rng.choice(OPT_LEN[c]))) for c in rng.sample([1, 3, 6, 15, 43], rng.randint(0, 4))]
+            rng.shuffle(items)
+            its = []
+            for it in items:
+                if rng.random() < 0.1:
+                    its.append(("pad",))
+                its.append(it)
+            pkt = mk_pkt(rng, its, rng.choice(["end", "end", "endpad", "noend"]))
+            if rng.random() < 0.03:
+                pkt = short_pkt(rng)
+            if w == 1:
+                cases.append("relayreply4 %s %s" % (ip4tok(rng, 0.08), hx(pkt)))
+            else:
+                cases.append("proxyreply4 %s %d %s" % (ip4tok(rng, 0.08), rng.choice(LEASES), hx(pkt)))
+    return cases
+
+
 def gen_cases(rng, tier, budget):
     k = 1 if tier == "quick" else 12
     if budget:
@@ -718,6 +757,7 @@ def gen_cases(rng, tier, budget):
     cases += gen_carry(rng, 420 * k)
     cases += gen_reply(rng, 900 * k)
     cases += gen_v6(rng, 1500 * k)
+    cases += gen_pipeline4(rng, 360 * k)
     return cases
 
 
@@ -837,7 +877,7 @@ def _shrink_bytes(b):
 def shrink(case):
     t = case.split()
     op = t[0]
-    if op in ("o82ins", "o82strip", "setu32", "setip", "proxy", "giaddr", "hops"):
+    if op in ("o82ins", "o82strip", "setu32", "setip", "proxy", "giaddr", "hops", "relay4", "relayreply4", "proxyreply4"):
         pkt = unhx(t[-1])
         for p in _shrink_pkt(pkt):
             yield " ".join(t[:-1] + [hx(p)])
